@@ -389,6 +389,34 @@ def check_ring_choice(prog: Program, res: Result, fi) -> None:
         if len(size) == 1 and len(arom) == 1:
             rec = (parts, size[0], arom[0], isinstance(e, ast.Tuple))
     if rec is None:
+        # plain ring lists: taking the first ring that contains the bond
+        # (next(..) / [0] without any ordering by size) depends on the order
+        # in which RDKit happens to list the rings
+        fns = [fi] + [prog.functions[q] for q in prog.norm_report.get(
+            "new_functions", []) if q.startswith("rdmol2graph:")]
+        for f_ in fns:
+            if "GetSymmSSSR" not in utext(fi.node) + utext(f_.node):
+                continue
+            ordered = any(isinstance(n, ast.Call) and (
+                (isinstance(n.func, ast.Attribute) and n.func.attr == "sort")
+                or call_name(n) in ("sorted", "min", "max"))
+                and "ring" in norm(n, 300).lower() for n in ast.walk(f_.node))
+            for n in ast.walk(f_.node):
+                if isinstance(n, ast.Call) and call_name(n) == "next" and \
+                        n.args and isinstance(
+                        n.args[0], ast.GeneratorExp) and "ring" in norm(
+                        n.args[0].generators[0].iter).lower() and \
+                        not ordered:
+                    res.bad("R-RING-CHOICE", f"{f_.short}: first ring in "
+                            "RDKit's order", f_.loc(n),
+                            f"{inst}: `{norm(n, 80)}` takes the first ring "
+                            "that contains the bond; the ring list is not "
+                            "ordered by (aromatic, size), so for a bond "
+                            "shared by a small and a large ring the ring "
+                            "examined depends on the order RDKit lists them "
+                            "in (different SMILES spellings import to "
+                            "unequal graphs)", instance=inst)
+                    return
         res.unrecognised("R-RING-CHOICE", inst, fi.loc(),
                          "ring records (aromatic flag, size, atoms) over "
                          "GetSymmSSSR not found")
